@@ -45,18 +45,21 @@ fn watch<T>(f: impl FnOnce() -> T) -> (T, usize) {
     (r, WATCH_MAX.load(Ordering::Relaxed))
 }
 
-pub const REPO_TESTS: &str = "/repo/tests";
+/// the repository's tests directory (example files, plugin configs); ADLT_REPO overrides /repo (used for snapshot runs)
+pub fn repo_tests() -> String {
+    format!("{}/tests", std::env::var("ADLT_REPO").unwrap_or_else(|_| "/repo".to_string()))
+}
 
 pub fn mk_plugins() -> Vec<Box<dyn Plugin + Send>> {
     let mut eac = eac_stats::EacStats::new();
     let mut v: Vec<Box<dyn Plugin + Send>> = vec![];
-    let rewrite: serde_json::Value = std::fs::read_to_string(format!("{}/rewrite.cfg", REPO_TESTS)).ok().and_then(|s| serde_json::from_str(&s).ok()).unwrap_or(serde_json::json!({"name":"Rewrite","rewrites":[]}));
+    let rewrite: serde_json::Value = std::fs::read_to_string(format!("{}/rewrite.cfg", repo_tests())).ok().and_then(|s| serde_json::from_str(&s).ok()).unwrap_or(serde_json::json!({"name":"Rewrite","rewrites":[]}));
     for cfg in [
         serde_json::json!({"name":"FileTransfer","allowSave":true}),
-        serde_json::json!({"name":"NonVerbose","fibexDir":REPO_TESTS}),
-        serde_json::json!({"name":"SomeIp","fibexDir":REPO_TESTS}),
-        serde_json::json!({"name":"CAN","fibexDir":REPO_TESTS}),
-        serde_json::json!({"name":"Muniic","jsonDir":format!("{}/muniic", REPO_TESTS)}),
+        serde_json::json!({"name":"NonVerbose","fibexDir":repo_tests()}),
+        serde_json::json!({"name":"SomeIp","fibexDir":repo_tests()}),
+        serde_json::json!({"name":"CAN","fibexDir":repo_tests()}),
+        serde_json::json!({"name":"Muniic","jsonDir":format!("{}/muniic", repo_tests())}),
         rewrite,
     ] {
         if let Some(p) = adlt::plugins::factory::get_plugin(cfg.as_object().unwrap(), &mut eac) {
